@@ -460,6 +460,9 @@ def r3_growth(program, rep):
                    "non-adjacent chips are produced" % detail[:200])
     lp = [n for n in ast.walk(fn) if isinstance(n, ast.For) and
           T.term(n.iter, cfg.loop_head[id(n)]) == ("global", "Links")]
+    if not lp:
+        raise AnalysisError("a_star: the loop over the six links was not "
+                            "found in the form analysed")
     rep.check(len(lp) == 1 and not any(
         isinstance(x, ast.Break) for x in ast.walk(lp[0])),
         "C03-R3", inst, "all six links are tried from every node",
@@ -788,19 +791,22 @@ def r6_truncation(program, rep):
                 v = names[0]
                 lo = fl.sym(sl.lower, d.node)
                 ok = lo == fl.symvar(v, d.node) + 1
-                decs = [x for x in fl.defs if x.var == v and x.mode == "aug"
-                        and _inside(x.node.ast, lp)]
-                init = [x for x in fl.defs if x.var == v and
-                        x.mode == "assign"]
-                others = [x for x in fl.defs if x.var == v and
-                          x.mode not in ("aug", "assign")]
-                ok = ok and len(decs) == 1 and not others and \
-                    isinstance(decs[0].value.op, ast.Sub) and \
-                    isinstance(decs[0].value.value, ast.Constant) and \
-                    decs[0].value.value.value == 1 and \
-                    cfg.dominates(decs[0].node, d.node) and \
-                    len(init) == 1 and not _inside(init[0].node.ast, lp) \
-                    and plain(T.term(init[0].value, init[0].node)) == n_len
+                # the position counter: starts at len(path), goes down by
+                # one per element looked at (`i -= 1` or `i = i - 1`)
+                vb = [b_ for b_ in T.binds if b_.var == v and
+                      b_.mode in ("assign", "aug")]
+                decs = [b_ for b_ in vb if _inside(b_.node.ast, lp)]
+                init = [b_ for b_ in vb if not _inside(b_.node.ast, lp)]
+                others = [b_ for b_ in T.binds if b_.var == v and
+                          b_.mode not in ("assign", "aug")]
+                ok = ok and len(decs) == 1 and not others and len(init) == 1
+                if ok:
+                    dt = plain(T._bind_term(decs[0]))
+                    cur = plain(T.term(ast.Name(id=v, ctx=ast.Load()),
+                                       decs[0].node))
+                    ok = dt == ("binop", "Sub", cur, ("const", 1)) and \
+                        cfg.dominates(decs[0].node, d.node) and \
+                        plain(T._bind_term(init[0])) == n_len
                 E = T._elem(T.term(lp.iter, head))
                 ok = ok and any(plain(x) == plain(("comp", E, 1))
                                 for x in on_tree)
@@ -878,11 +884,48 @@ def r7_raises(program, rep):
               "MachineHasDisconnectedSubregion", construct="raises %s" %
               sorted(names))
     a = program.get(NER + ":a_star")
-    fl = Flow(a)
-    ok = False
-    for r in raises_of(a):
-        ok = has_fact(fl.facts(fl.cfg.node_of(r)),
-                      "selected_source is None", True)
+    # on every path to the raise no node taken from the queue was one of the
+    # permitted targets; on every path to the return one was (whether that is
+    # remembered in a variable, by a break, or by the loop's else clause)
+    from ..pathstate import Paths, Client
+    TA = Terms(a)
+    SOURCES = ("param", formals(a)[2])
+
+    class _Found(Client):
+        def __init__(self):
+            self.at_raise, self.at_ret = set(), set()
+
+        def start(self):
+            return ("no target met",)   # else: the target met (a term)
+
+        def step(self, view, n, env, mon):
+            if n.kind == "assume":
+                try:
+                    t, p = view.cond(n.ast, n, n.polarity)
+                except AnalysisError:
+                    return mon
+                if p and t[0] == "cmp" and t[1] == "In" and \
+                        t[3] == SOURCES:
+                    return t[2]
+            if view is not TA:
+                return mon      # inside a nested helper
+            if n.kind == "stmt" and isinstance(n.ast, ast.Raise):
+                self.at_raise.add(mon != self.start())
+            if n.kind == "stmt" and isinstance(n.ast, ast.Return):
+                self.at_ret.add(mon != self.start())
+            return mon
+
+        def tag(self, view, node, term, env, mon):
+            # a member of the target set is a chip coordinate, not None
+            return "NN" if mon != self.start() and term == mon else None
+    cl = _Found()
+    Paths(TA, cl).run(TA, TA.cfg.entry, {}, cl.start())
+    if not cl.at_raise or not cl.at_ret:
+        raise AnalysisError("a_star: raise / return not reached in the "
+                            "exploration")
+    ok = cl.at_raise == {False} and cl.at_ret == {True}
+    rep.assume("the permitted targets of a_star are chip coordinates (None "
+               "is not among them)")
     rep.check(ok, "C03-R7", qual(a), "it is raised only when the search "
               "exhausted every reachable chip without meeting the tree",
               construct="disconnected condition", node=a)
